@@ -952,6 +952,28 @@ def guard_edges(fn, guards):
             if summ:
                 ext.append(Guard(call=sorted(summ), vals=g.vals))
     guards = ext
+    edges = _guard_edges_basic(fn, guards)
+    # a test moved into a local predicate: `if self.is_usable() { .. }` where is_usable() can only
+    # return true when the guarded place has the required value
+    plain = [g for g in guards if g.place is not None and not g.cmp and g.where is None and g.vals and g.vals <= {'true', 'false'}]
+    if plain:
+        for c in fn.calls:
+            if fn.blocks[c.bb]['c'] or c.t.get('dty') != 'bool' or not c.callee or c.t.get('virt'):
+                continue
+            g_fn = fn.facts.fns.get(c.callee)
+            if g_fn is None or g_fn is fn:
+                continue
+            if any(_predicate_implies(g_fn, g) for g in plain):
+                for bb in range(fn.nb):
+                    if fn.blocks[bb]['t']['k'] != 'sw':
+                        continue
+                    for si, facts in enumerate(edge_facts(fn, bb)):
+                        if any(f.kind == 'call' and f.call is not None and f.call.bb == c.bb and not f.cmp and f.vals == frozenset({'true'}) for f in facts):
+                            edges.add((bb, si))
+    return edges
+
+
+def _guard_edges_basic(fn, guards):
     edges = set()
     for bb in range(fn.nb):
         k = fn.blocks[bb]['t']['k']
@@ -963,6 +985,55 @@ def guard_edges(fn, guards):
                     edges.add((bb, si))
                     break
     return edges
+
+
+def _predicate_implies(g_fn, guard):
+    """g_fn returns bool; does `true` imply the guard (a place of `self` having a bool value)?
+    Every assignment of the return place is a constant false, or the (negated) guarded place
+    itself, or sits behind one of the guard's own edges inside g_fn."""
+    key = ('pred', guard.place, tuple(sorted(guard.vals)))
+    if key in g_fn._sym:
+        return g_fn._sym[key]
+    g_fn._sym[key] = False  # recursion guard
+    if g_fn.local_ty(0) != 'bool':
+        return False
+    S = sym(g_fn)
+    inner = _guard_edges_basic(g_fn, [guard])
+    r = reach(g_fn, cut_edges=inner) if inner else None
+    sites = 0
+    ok = True
+    want_true = guard.vals == frozenset({'true'})
+
+    def is_place(o):
+        if o[0] == 'k':
+            return False
+        d = S.describe(S.operand(o))
+        probe = Fact('place', None, d, guard.vals)
+        return guard.matches(probe)
+
+    for bi, b in enumerate(g_fn.blocks):
+        if b['c']:
+            continue
+        for si, st in enumerate(b['s']):
+            if st[0] != 'a' or st[1] != [0, []]:
+                continue
+            sites += 1
+            rv = st[2]
+            if rv['k'] == 'use' and rv['o'][0] == 'k' and rv['o'][2] is False:
+                continue
+            if rv['k'] == 'un' and rv.get('op') == 'Not' and not want_true and is_place(rv['o']):
+                continue
+            if rv['k'] == 'use' and want_true and is_place(rv['o']):
+                continue
+            if r is not None and not point_reached(g_fn, r, bi, si):
+                continue
+            ok = False
+    for c in g_fn.calls:
+        if c.t['d'] == [0, []] and not g_fn.blocks[c.bb]['c']:
+            ok = False  # the verdict of another call: not followed
+    res = ok and sites > 0
+    g_fn._sym[key] = res
+    return res
 
 
 # ----------------------------------------------------------------------------- reachability
